@@ -791,7 +791,19 @@ def _subst(tree, name, repl):
     return T().visit(tree)
 
 
+
+def _documented_node_fields(prog, rule):
+    """the rules below address the fields of a node by the names the
+    library gives them today; with other names nothing can be said"""
+    from ..fields import bdd_node_fields
+    got = bdd_node_fields(prog)
+    if tuple(got) != ('var', 'low', 'high', 'value'):
+        raise Inconclusive(rule, 'the fields of a BDD node are called %r' % (
+            got,), 'pyModelChecking/BDD/BDD.py')
+
+
 def run(prog, tier, seed):
+    _documented_node_fields(prog, 'R-BP-1')
     T = Attempts()
     seeds, funcs = parser_functions(prog)
     r1, results = T(rule_bp1, prog, funcs, _n=2)
